@@ -24,6 +24,10 @@ var (
 	flagHashes  = flag.Bool("hashes", false, "print seed and trace hash per run")
 	flagProp    = flag.String("prop", "", "property whose violations count (others are notes)")
 	flagMaxViol = flag.Int("maxviol", 20, "stop after this many violating runs")
+	flagTier    = flag.String("tier", "quick", "quick or thorough")
+	flagShrink  = flag.String("shrink", "", "replay file to minimise")
+	flagShrinkO = flag.String("shrinkout", "", "where to write the minimised replay file")
+	flagShrinkB = flag.Duration("shrinkbudget", 30*time.Second, "wall-clock budget for minimisation")
 )
 
 // WorkerOut is what one worker process reports.
@@ -38,6 +42,8 @@ type WorkerOut struct {
 	Shapes    map[string]int    `json:"-"`
 	ShapeList []string          `json:"shapes"`
 	NonTriv   int               `json:"nontrivial_runs"`
+	NTShapes  []string          `json:"nontrivial_shapes"`
+	Extra     map[string]any    `json:"extra,omitempty"`
 	Capped    int               `json:"hit_step_cap"`
 	Fatal     []string          `json:"fatal,omitempty"`
 	Failures  []*Result         `json:"failures,omitempty"`
@@ -48,6 +54,10 @@ type WorkerOut struct {
 
 func WorkerMain(t *testing.T) {
 	debug.SetGCPercent(-1)
+	if *flagShrink != "" {
+		shrinkMain(t, *flagShrink, *flagShrinkO, *flagShrinkB)
+		return
+	}
 	if *flagReplay != "" {
 		replayMain(t)
 		return
@@ -57,6 +67,11 @@ func WorkerMain(t *testing.T) {
 		out.Hashes = map[string]string{}
 	}
 	start := time.Now()
+	ntShapes := map[string]bool{}
+	if f, ok := specialWorkers[*flagProfile]; ok {
+		f(t, out)
+		*flagRuns = 0
+	}
 	for i := 0; i < *flagRuns; i++ {
 		if *flagBudget > 0 && time.Since(start) > *flagBudget {
 			break
@@ -77,8 +92,9 @@ func WorkerMain(t *testing.T) {
 			out.Capped++
 		}
 		out.Shapes[res.Shape]++
-		if nontrivial(*flagProfile, res) {
+		if nontrivial(*flagProp, res) {
 			out.NonTriv++
+			ntShapes[res.Shape] = true
 		}
 		if *flagHashes {
 			out.Hashes[fmt.Sprint(seed)] = res.TraceHash
@@ -117,6 +133,10 @@ func WorkerMain(t *testing.T) {
 		out.ShapeList = append(out.ShapeList, k)
 	}
 	sort.Strings(out.ShapeList)
+	for k := range ntShapes {
+		out.NTShapes = append(out.NTShapes, k)
+	}
+	sort.Strings(out.NTShapes)
 	b, _ := json.Marshal(out)
 	if *flagOut != "" {
 		if err := os.WriteFile(*flagOut, b, 0o644); err != nil {
@@ -127,9 +147,17 @@ func WorkerMain(t *testing.T) {
 	}
 }
 
-func nontrivial(profile string, res *Result) bool {
-	return len(res.Hist) > 0
+// nontrivial: the property's relevance probe fired in this run.
+func nontrivial(prop string, res *Result) bool {
+	if prop == "" {
+		return len(res.Hist) > 0
+	}
+	return res.Stats.Probes[prop+"-relevant"] > 0
 }
+
+// specialWorkers are profiles that are not "generate a program, run it":
+// complete enumerations and the like. They fill the WorkerOut themselves.
+var specialWorkers = map[string]func(t *testing.T, out *WorkerOut){}
 
 // ReplayFile is the on-disk form of a violation.
 type ReplayFile struct {
@@ -160,8 +188,20 @@ func replayMain(t *testing.T) {
 			fmt.Println(l)
 		}
 	}
+	repro := false
 	for _, v := range res.Viols {
 		fmt.Printf("VIOL %s %s\n     %s\n", v.Prop, v.Sig, v.Text)
+		if v.Sig == rf.Signature {
+			repro = true
+		}
+	}
+	if res.Fatal != "" {
+		fmt.Println("FATAL", res.Fatal)
+	}
+	if repro {
+		fmt.Printf("REPRODUCED property=%s signature=%s\n", rf.Property, rf.Signature)
+	} else {
+		fmt.Printf("NOT-REPRODUCED property=%s signature=%s\n", rf.Property, rf.Signature)
 	}
 	out, _ := json.Marshal(res)
 	if *flagOut != "" {
